@@ -64,6 +64,12 @@ CHECKS = {
  "C02": (True, "E1", "exploration", E1 + " with counting / tripwire sources",
   "A catalogue of ~120 processing stages (Stream operators and methods, thub/tee, every classified name of lazy_itertools, constant and time-varying filters, cascade/parallel, designed filters with stream parameters, blocks/zero_pad/chunks, moving averages, envelopes, amdf, clip, zcross, unwrap, Streamix, modulo_counter/TableLookup with stream arguments, resample x 4 ratios x 4 orders, overlap_add.list with declared and detected size, the STFT wrapper) each with the source allowance the statement grants for k outputs, run on counting sources over an endless sequence with a tripwire one item beyond the allowance: zero reads at construction, pull counts after each of k = 1..8 (24) outputs, no read-ahead when a limit(n) downstream is drained or a finite stage ends; all 2-stage (thorough 3-stage) compositions of composable stages with composed allowances.",
   "K bound; filter memory is not a source; eager itertools (product, permutations, combinations) excluded by definition."),
+ "C12": (True, "E1", "exploration", E1 + " on an explicit frequency grid with derived rounding bounds",
+  "80 (thorough 143) filters x float and exact coefficient types x {0, pi, k*pi/8} + a 64 (1024) point grid: the library's float freq_response vs numerator/denominator evaluated in exact rational complex arithmetic at the same dyadic z0 = exp(-jw), under a bound derived from the evaluation scheme (ill-conditioned points skipped and counted), nan exactly where the denominator vanishes, container kinds mapped element by element; cascades (product) and parallel banks (sum) of 1..3 filters incl. branches sharing a denominator; unnormalised DFT of a FIR impulse response = freq_response, complex exponential through a FIR filter scaled by freq_response once the memory is full; dft = defining sum for single and multi-frequency calls in several orders, linearity, DC bin = mean.",
+  "Grid-exhaustive only (nothing between grid points); bound constants stated in the evidence."),
+ "C13": (True, "E1", "exploration", E1 + " on explicit parameter grids, coefficients evaluated exactly",
+  "Every strategy and alias (iterated from the StrategyDicts) of lowpass/highpass x 256 (4096) cut-offs in [1e-3, pi-1e-3]: unit gain at DC/Nyquist, pole strictly inside, half power at the cut-off and monotone magnitude for the pole/z designs; resonators x 96 (512) frequencies x 16 (64) bandwidths: a2 = e^-bw, unit gain at the resonant frequency (analytic peak for the freq_* strategies, vacuous cases counted), maximum there; combs x delays x alphas/taus by exact impulse-train response; gammatone strategies x 48x8 (256x32): every section stable (Jury), unit cascade gain at the centre frequency; stream-valued parameters for every design: coefficients equal the constant designs' sample by sample. Gains are computed exactly from the returned float coefficients; tolerances = 64u x conditioning (derived).",
+  "Grid-exhaustive only; tolerances scaled by conditioning as stated in the evidence."),
 }
 
 NOT_YET = "check not built yet in this session; see DESIGN.md section 4 for the planned model-checking harness"
